@@ -56,6 +56,17 @@ def parser(kind, *args, **kw):
     return Opaque('Parser', P(kind, *args, **kw))
 
 
+class Consumed(Exception):
+    """nullability mode: the path has provably consumed input; no need to follow it further"""
+
+
+def nullability_cut(it, sp):
+    if it.env.get('nullability_mode'):
+        p0 = it.env.get('p_in')
+        if p0 is not None and not it.feasible(sp.data['off'] == p0):
+            raise Consumed()
+
+
 class GState:
     def __init__(self):
         self.n = 0
@@ -73,6 +84,14 @@ def gs(it):
 
 def nom_error(it, sp):
     return err(Enum('Err', 'Error', 1, [Opaque('GreedyError', {'pos': sp.data['off']})]))
+
+
+def nom_failure(it, sp):
+    return err(Enum('Err', 'Failure', 2, [Opaque('GreedyError', {'pos': sp.data['off']})]))
+
+
+def is_failure(r):
+    return r.variant == 'Err' and type(r.fields[0]) is Enum and r.fields[0].variant == 'Failure'
 
 
 def result_type(dest_ty):
@@ -119,6 +138,8 @@ def effect_free(it, f):
     name = prod_name(f.path)
     if name == it.env.get('self_name') or name in it.env.get('span_returning', ()):
         return False
+    if name in it.env.get('hard_failing', ()):
+        return False
     summ = it.env.get('summaries', {}).get(name)
     if summ is None:
         return name not in it.env.get('effectful', ())
@@ -151,11 +172,17 @@ def call_production(it, path, sp, dest_ty):
             apply_effect(it, summ.get('ok', (0, 0)), name)
         ty = result_type(dest_ty) or name
         g.log.append(('ok', name))
+        nullability_cut(it, span(q))
         if norm_type(ty) == 'LocatedSpan' or name in it.env.get('span_returning', ()):
             return ok(Tup([span(q), span(p, length=q - p)]))     # productions that return the matched span itself
         return ok(Tup([span(q), anode(norm_type(ty), p, q)]))
     if summ:
         apply_effect(it, summ.get('err', (0, 0)), name)
+    if name in it.env.get('hard_failing', ()):
+        hb = g.fresh('hard_' + name, 'Bool')
+        if it.decide(hb, 'hard'):
+            g.log.append(('failure', name))
+            return nom_failure(it, sp)
     g.log.append(('err', name))
     return nom_error(it, sp)
 
@@ -195,6 +222,8 @@ def apply_prim(it, P_, sp, dest_ty):
         if it.decide(okb, 'terminal'):
             q = g.fresh('q')
             it.assume(q > p)
+            nullability_cut(it, span(q))
+            g.log.append(('terminal', P_.args[1]))
             return ok(Tup([span(q), anode('Keyword' if P_.args[0] == 'keyword' else 'Symbol', p, q)]))
         return nom_error(it, sp)
     if k in ('tag', 'tag_no_case'):
@@ -204,6 +233,7 @@ def apply_prim(it, P_, sp, dest_ty):
         if n == 0:
             return ok(Tup([sp, span(p, length=0)]))
         if it.decide(okb, 'prim'):
+            nullability_cut(it, span(p + n))
             return ok(Tup([span(p + n), span(p, length=n)]))
         return nom_error(it, sp)
     if k in ('is_a', 'is_not', 'alpha1', 'digit1', 'space1', 'multispace1', 'alphanumeric1', 'hex_digit1', 'take_while1', 'take_till1',
@@ -240,6 +270,8 @@ def apply_prim(it, P_, sp, dest_ty):
         if r.variant == 'Ok':
             s2, v = r.fields[0].fields
             return ok(Tup([s2, some(v)]))
+        if is_failure(r):
+            return r
         return ok(Tup([sp, none()]))
     if k == 'map':
         r = it.concretize(apply(it, P_.args[0], sp))
@@ -267,7 +299,7 @@ def apply_prim(it, P_, sp, dest_ty):
     if k == 'alt':
         for sub in P_.args[0]:
             r = it.concretize(apply(it, sub, sp))
-            if r.variant == 'Ok':
+            if r.variant == 'Ok' or is_failure(r):
                 return r
         return nom_error(it, sp)
     if k in ('pair', 'tuple', 'separated_pair', 'delimited', 'terminated', 'preceded'):
@@ -307,6 +339,8 @@ def apply_prim(it, P_, sp, dest_ty):
         vals = []
         for i in range(2):
             r = it.concretize(apply(it, P_.args[0], cur))
+            if is_failure(r):
+                return r
             if r.variant != 'Ok':
                 break
             s2, v = r.fields[0].fields
@@ -332,6 +366,8 @@ def apply_prim(it, P_, sp, dest_ty):
             if r.variant == 'Ok':
                 s2, v = r.fields[0].fields
                 return ok(Tup([s2, Tup([VecV(vals), v])]))
+            if is_failure(r):
+                return r
             if i == 2:
                 g.log.append(('unroll-bound', k))
                 raise PathInfeasible()
@@ -370,6 +406,8 @@ def apply_prim(it, P_, sp, dest_ty):
         r = it.concretize(apply(it, P_.args[0], sp))
         if r.variant == 'Ok':
             return nom_error(it, sp)
+        if is_failure(r):
+            return r
         return ok(Tup([sp, UNIT]))
     if k == 'recognize':
         r = it.concretize(apply(it, P_.args[0], sp))
@@ -385,7 +423,12 @@ def apply_prim(it, P_, sp, dest_ty):
                 return r
             return nom_error(it, s2)
         return r
-    if k in ('context', 'cut', 'complete'):
+    if k == 'cut':
+        r = it.concretize(apply(it, P_.args[0], sp))
+        if r.variant == 'Err' and not is_failure(r):
+            return nom_failure(it, sp)
+        return r
+    if k in ('context', 'complete'):
         return apply(it, P_.args[0], sp)
     if k == 'value':
         r = it.concretize(apply(it, P_.args[1], sp))
@@ -423,9 +466,9 @@ def install(mdl, production_names=None):
     def terminal_ctor(it, ci, a, d):
         # utils::symbol(t) / keyword(t) / symbol_exact(t): terminal with trailing trivia, contract verified on its own
         # closure body (pseudo-productions 'utils::symbol' ...): Ok => Symbol/Keyword node tiling [p, q), q > p
-        if it.env.get('self_name', '').startswith('utils::'):
+        if it.env.get('self_name', '') in ('utils::symbol', 'utils::keyword', 'utils::symbol_exact'):
             return NotImplemented
-        if ci.trait is None and ci.name in ('symbol', 'keyword', 'symbol_exact') and ci.prefix.endswith('utils') and len(a) == 1:
+        if ci.trait is None and ci.name in ('symbol', 'keyword', 'symbol_exact') and (ci.prefix == '' or ci.prefix.endswith('utils')) and len(a) == 1:
             return parser('terminal', ci.name, a[0] if type(a[0]) is str else None)
         return NotImplemented
     mdl.pre_hooks.append(terminal_ctor)
@@ -529,6 +572,24 @@ def install(mdl, production_names=None):
     def abs_str_eq(it, ci, a, d):
         return gs(it).fresh('streq', 'Bool')
     ov(r'<&str as PartialEq>::(eq|ne)$|<str as PartialEq>::(eq|ne)$', lambda it, ci, a, d: abs_str_eq(it, ci, a, d) if (type(deref(a[0])) is AbsFrag or type(deref(a[1])) is AbsFrag) else (sv(a[0]) == sv(a[1])) ^ (ci.name == 'ne'))
+
+    def abs_trim(it, ci, a, d):
+        if not a:
+            return NotImplemented
+        v = deref(a[0])
+        if not isinstance(v, AbsStr):
+            return NotImplemented
+        if ci.trait is None and ci.name in ('trim', 'trim_end', 'trim_start', 'trim_matches', 'trim_end_matches', 'trim_start_matches') and '<impl str>' in ci.path:
+            n2 = gs(it).fresh('trimmed')
+            it.assume(z3.And(n2 >= 0, n2 <= v.n))
+            off = getattr(v, 'off', None)
+            if off is not None and ci.name in ('trim', 'trim_start', 'trim_matches', 'trim_start_matches'):
+                o2 = gs(it).fresh('trimoff')
+                it.assume(z3.And(o2 >= off, o2 + n2 <= off + v.n))
+                off = o2
+            return AbsFrag(off, n2) if off is not None else AbsStr(n2)
+        return NotImplemented
+    mdl.pre_hooks.append(abs_trim)
 
     def make_error(it, ci, a, d):
         return Opaque('GreedyError', {'pos': a[0].data['off'] if type(a[0]) is Opaque else None})
